@@ -1,59 +1,50 @@
 /-
-  GIV.Lemmas.TxtarMarker — facts about `markerName` (the model of isMarker), proved from the
-  generated facts `Gen.Txtar.lenGuard`, `crAtEOF` and the marker literals.
+  GIV.Lemmas.TxtarMarker — facts about `markerName` (the model of isMarker).
+
+  The facts regenerated from archive.go (`Gen.Txtar.*`) enter as *hypotheses* (Prop-valued type
+  classes, so that they are threaded silently).  The Props files discharge them by `⟨rfl⟩` inside
+  each property theorem: when factgen flips a fact, exactly the property theorems that depend on
+  it stop compiling, and they are reported by name.
 -/
 import GIV.Lemmas.TxtarTrim
 import GIV.Lemmas.TxtarLines
 namespace GIV.Txtar
 open GIV
 
+/-- isMarker guards the name slice with `len(data) >= len(marker)+len(markerEnd)`. -/
+class FLen : Prop where
+  eq : Gen.Txtar.lenGuard = true
+
+/-- isMarker strips a trailing '\r' also when the line has no final newline. -/
+class FCR : Prop where
+  eq : Gen.Txtar.crAtEOF = true
+
+/-- the marker literals `"-- "` and `" --"`. -/
+class FLit : Prop where
+  marker : Gen.Txtar.marker = [45, 45, 32]
+  markerEnd : Gen.Txtar.markerEnd = [32, 45, 45]
+
+/-- NeedsQuote returns `name != ""`. -/
+class FNQ : Prop where
+  eq : Gen.Txtar.needsQuoteTestsName = true
+
+theorem marker_eq [FLit] : marker = [45, 45, 32] := FLit.marker
+theorem markerEnd_eq [FLit] : markerEnd = [32, 45, 45] := FLit.markerEnd
+
 /-- the name slice of a marker line body `data` (already stripped of '\r'). -/
 def nameSlice (data : Bytes) : Bytes :=
   (data.take (data.length - markerEnd.length)).drop marker.length
 
-theorem marker_eq : marker = [45, 45, 32] := rfl
-theorem markerEnd_eq : markerEnd = [32, 45, 45] := rfl
+/-- the line body as `isMarker` looks at it: one trailing '\r' stripped (at end of input only
+if `crAtEOF`). -/
+def lineData (l : Line) : Bytes :=
+  if Gen.Txtar.crAtEOF || l.nl then dropLastCR l.body else l.body
 
-/-- `markerName` with the generated facts (`lenGuard`, `crAtEOF`) plugged in. -/
-theorem markerName_eq (l : Line) :
-    markerName l =
-      if marker.isPrefixOf l.bytes ∧ markerEnd.isSuffixOf (dropLastCR l.body) ∧
-          marker.length + markerEnd.length ≤ (dropLastCR l.body).length
-      then some (trimSpace (nameSlice (dropLastCR l.body))) else some [] := by
-  unfold markerName nameSlice
-  simp only [Gen.Txtar.lenGuard, Gen.Txtar.crAtEOF, Bool.true_or, if_true, Bool.true_and]
-  by_cases h1 : marker.isPrefixOf l.bytes = true
-  · by_cases h2 : markerEnd.isSuffixOf (dropLastCR l.body) = true
-    · by_cases h3 : marker.length + markerEnd.length ≤ (dropLastCR l.body).length
-      · have : ¬ ((dropLastCR l.body).length - markerEnd.length < marker.length) := by omega
-        simp [h1, h2, h3, this, Nat.not_lt.mpr h3]
-      · simp [h1, h2, h3, Nat.lt_of_not_le h3]
-    · simp [h1, h2]
-  · simp [h1]
-end GIV.Txtar
-namespace GIV.Txtar
-open GIV
+theorem lineData_nl (b : Bytes) : lineData ⟨b, true⟩ = dropLastCR b := by
+  simp [lineData]
 
-theorem markerName_total (l : Line) : ∃ n, markerName l = some n := by
-  rw [markerName_eq]; split <;> exact ⟨_, rfl⟩
-
-theorem marker_isPrefixOf_nl (b : Bytes) : marker.isPrefixOf (b ++ [NL]) = marker.isPrefixOf b := by
-  rw [marker_eq]
-  match b with
-  | [] => simp [List.isPrefixOf, NL]
-  | [x] => simp [List.isPrefixOf, NL]
-  | [x, y] => simp [List.isPrefixOf, NL]
-  | x :: y :: z :: r => simp [List.isPrefixOf]
-
-theorem marker_isPrefixOf_bytes (l : Line) : marker.isPrefixOf l.bytes = marker.isPrefixOf l.body := by
-  unfold Line.bytes
-  split
-  · exact marker_isPrefixOf_nl _
-  · rfl
-
-/-- With `crAtEOF`, recognition does not depend on whether the line has its final newline. -/
-theorem markerName_nl (b : Bytes) (nl : Bool) : markerName ⟨b, nl⟩ = markerName ⟨b, true⟩ := by
-  rw [markerName_eq, markerName_eq, marker_isPrefixOf_bytes, marker_isPrefixOf_bytes]
+theorem lineData_eq [FCR] (l : Line) : lineData l = dropLastCR l.body := by
+  simp [lineData, FCR.eq]
 
 theorem dropLastCR_of_ne {b : Bytes} (h : b.getLast? ≠ some CR) : dropLastCR b = b := by
   simp [dropLastCR, h]
@@ -61,27 +52,96 @@ theorem dropLastCR_of_ne {b : Bytes} (h : b.getLast? ≠ some CR) : dropLastCR b
 theorem dropLastCR_append_CR (b : Bytes) : dropLastCR (b ++ [CR]) = b := by
   simp [dropLastCR]
 
-theorem marker_crlf_aux (body : Bytes) (h : body.getLast? ≠ some CR) (nl : Bool) :
-    markerName ⟨body ++ [CR], nl⟩ = markerName ⟨body, nl⟩ := by
-  rw [markerName_eq, markerName_eq, marker_isPrefixOf_bytes, marker_isPrefixOf_bytes]
-  simp only [dropLastCR_append_CR, dropLastCR_of_ne h]
-  have : marker.isPrefixOf (body ++ [CR]) = marker.isPrefixOf body := by
-    rw [marker_eq]
-    match body with
-    | [] => simp [List.isPrefixOf, CR]
-    | [x] => simp [List.isPrefixOf, CR]
-    | [x, y] => simp [List.isPrefixOf, CR]
-    | x :: y :: z :: r => simp [List.isPrefixOf]
-  rw [this]
+theorem lineData_of_ne {l : Line} (h : l.body.getLast? ≠ some CR) : lineData l = l.body := by
+  unfold lineData
+  split
+  · exact dropLastCR_of_ne h
+  · rfl
 
-end GIV.Txtar
-namespace GIV.Txtar
-open GIV
+/-- `markerName` with the length guard plugged in: it never panics. -/
+theorem markerName_eq [FLen] (l : Line) :
+    markerName l =
+      if marker.isPrefixOf l.bytes ∧ markerEnd.isSuffixOf (lineData l) ∧
+          marker.length + markerEnd.length ≤ (lineData l).length
+      then some (trimSpace (nameSlice (lineData l))) else some [] := by
+  unfold markerName nameSlice
+  simp only [FLen.eq, Bool.true_and]
+  show (if (!marker.isPrefixOf l.bytes) = true then some [] else
+      if (!markerEnd.isSuffixOf (lineData l)) = true then some [] else
+      if decide ((lineData l).length < marker.length + markerEnd.length) = true then some [] else
+      if (lineData l).length - markerEnd.length < marker.length then none
+      else some (trimSpace (((lineData l).take ((lineData l).length - markerEnd.length)).drop marker.length))) = _
+  generalize lineData l = data
+  by_cases h1 : marker.isPrefixOf l.bytes = true
+  · by_cases h2 : markerEnd.isSuffixOf data = true
+    · by_cases h3 : marker.length + markerEnd.length ≤ data.length
+      · have : ¬ (data.length - markerEnd.length < marker.length) := by omega
+        simp [h1, h2, h3, this, Nat.not_lt.mpr h3]
+      · simp [h1, h2, h3, Nat.lt_of_not_le h3]
+    · simp [h1, h2]
+  · simp [h1]
+
+theorem markerName_total [FLen] (l : Line) : ∃ n, markerName l = some n := by
+  rw [markerName_eq]; split <;> exact ⟨_, rfl⟩
+
+theorem marker_isPrefixOf_nl [FLit] (b : Bytes) :
+    marker.isPrefixOf (b ++ [NL]) = marker.isPrefixOf b := by
+  rw [marker_eq]
+  match b with
+  | [] => simp [List.isPrefixOf, NL]
+  | [x] => simp [List.isPrefixOf, NL]
+  | [x, y] => simp [List.isPrefixOf, NL]
+  | x :: y :: z :: r => simp [List.isPrefixOf]
+
+theorem marker_isPrefixOf_cr [FLit] (b : Bytes) :
+    marker.isPrefixOf (b ++ [CR]) = marker.isPrefixOf b := by
+  rw [marker_eq]
+  match b with
+  | [] => simp [List.isPrefixOf, CR]
+  | [x] => simp [List.isPrefixOf, CR]
+  | [x, y] => simp [List.isPrefixOf, CR]
+  | x :: y :: z :: r => simp [List.isPrefixOf]
+
+theorem marker_isPrefixOf_bytes [FLit] (l : Line) :
+    marker.isPrefixOf l.bytes = marker.isPrefixOf l.body := by
+  unfold Line.bytes
+  split
+  · exact marker_isPrefixOf_nl _
+  · rfl
+
+/-- With `crAtEOF`, recognition does not depend on whether the line has its final newline. -/
+theorem markerName_nl [FLen] [FCR] [FLit] (b : Bytes) (nl : Bool) :
+    markerName ⟨b, nl⟩ = markerName ⟨b, true⟩ := by
+  rw [markerName_eq, markerName_eq, marker_isPrefixOf_bytes, marker_isPrefixOf_bytes,
+    lineData_eq, lineData_eq]
+
+/-- CRLF = LF for a terminated marker line; needs only the literals (both sides are the same
+function of the stripped line). -/
+theorem marker_crlf_nl [FLit] (body : Bytes) (h : body.getLast? ≠ some CR) :
+    markerName ⟨body ++ [CR], true⟩ = markerName ⟨body, true⟩ := by
+  unfold markerName
+  simp only [Bool.or_true, if_true, dropLastCR_append_CR, dropLastCR_of_ne h]
+  rw [marker_isPrefixOf_bytes, marker_isPrefixOf_bytes]
+  simp only [marker_isPrefixOf_cr]
+
+/-- the same at end of input (no final newline), where `crAtEOF` is what strips the '\r'. -/
+theorem marker_crlf_any [FLit] [FCR] (body : Bytes) (h : body.getLast? ≠ some CR) (nl : Bool) :
+    markerName ⟨body ++ [CR], nl⟩ = markerName ⟨body, nl⟩ := by
+  unfold markerName
+  simp only [FCR.eq, Bool.true_or, if_true, dropLastCR_append_CR, dropLastCR_of_ne h]
+  rw [marker_isPrefixOf_bytes, marker_isPrefixOf_bytes]
+  simp only [marker_isPrefixOf_cr]
 
 theorem mem_of_mem_dropLastCR {b : Bytes} {x : UInt8} (h : x ∈ dropLastCR b) : x ∈ b := by
   unfold dropLastCR at h
   split at h
   · exact List.dropLast_subset _ h
+  · exact h
+
+theorem mem_of_mem_lineData {l : Line} {x : UInt8} (h : x ∈ lineData l) : x ∈ l.body := by
+  unfold lineData at h
+  split at h
+  · exact mem_of_mem_dropLastCR h
   · exact h
 
 theorem mem_of_mem_nameSlice {b : Bytes} {x : UInt8} (h : x ∈ nameSlice b) : x ∈ b := by
@@ -93,27 +153,28 @@ def NameOK (n : Bytes) : Prop := n ≠ [] ∧ trimSpace n = n ∧ NL ∉ n
 
 instance (n : Bytes) : Decidable (NameOK n) := by unfold NameOK; infer_instance
 
-theorem markerName_name_ok {l : Line} {n : Bytes} (h : markerName l = some n) (hn : n ≠ [])
+theorem markerName_name_ok [FLen] {l : Line} {n : Bytes} (h : markerName l = some n) (hn : n ≠ [])
     (hb : NL ∉ l.body) : NameOK n := by
   rw [markerName_eq] at h
   split at h
   · simp only [Option.some.injEq] at h
     subst h
     refine ⟨hn, trimSpace_idem _, fun hx => hb ?_⟩
-    exact mem_of_mem_dropLastCR (mem_of_mem_nameSlice (mem_of_mem_trimSpace hx))
+    exact mem_of_mem_lineData (mem_of_mem_nameSlice (mem_of_mem_trimSpace hx))
   · simp only [Option.some.injEq] at h
     exact absurd h.symm hn
 
 theorem nameSlice_fmt (n : Bytes) : nameSlice (marker ++ n ++ markerEnd) = n := by
   unfold nameSlice
-  have : (marker ++ n ++ markerEnd).length - markerEnd.length = (marker ++ n).length := by simp; omega
+  have : (marker ++ n ++ markerEnd).length - markerEnd.length = (marker ++ n).length := by
+    simp; omega
   rw [this, List.take_left, List.drop_left]
 
-theorem markerName_fmt {n : Bytes} (h : trimSpace n = n) (nl : Bool) :
+theorem markerName_fmt [FLen] [FLit] {n : Bytes} (h : trimSpace n = n) (nl : Bool) :
     markerName ⟨marker ++ n ++ markerEnd, nl⟩ = some n := by
   rw [markerName_eq, marker_isPrefixOf_bytes]
-  have h1 : dropLastCR (marker ++ n ++ markerEnd) = marker ++ n ++ markerEnd := by
-    apply dropLastCR_of_ne
+  have h1 : lineData ⟨marker ++ n ++ markerEnd, nl⟩ = marker ++ n ++ markerEnd := by
+    apply lineData_of_ne
     simp [markerEnd_eq, CR]
   simp only [h1, nameSlice_fmt, h]
   rw [if_pos]
@@ -122,9 +183,10 @@ theorem markerName_fmt {n : Bytes} (h : trimSpace n = n) (nl : Bool) :
   · rw [List.isSuffixOf_iff_suffix]; exact List.suffix_append _ _
   · simp
 
-theorem markerName_eq_ref {l : Line} (h : CR ∉ l.body) : markerName l = some (refMarkerName l) := by
-  have h1 : dropLastCR l.body = l.body := by
-    apply dropLastCR_of_ne
+theorem markerName_eq_ref [FLen] {l : Line} (h : CR ∉ l.body) :
+    markerName l = some (refMarkerName l) := by
+  have h1 : lineData l = l.body := by
+    apply lineData_of_ne
     intro e
     exact h (List.mem_of_getLast? e)
   rw [markerName_eq, h1]
@@ -137,7 +199,7 @@ theorem markerName_eq_ref {l : Line} (h : CR ∉ l.body) : markerName l = some (
     · simp [p, q]
   · simp [p]
 
-theorem markerName_gt (b : Bytes) (nl : Bool) : markerName ⟨62 :: b, nl⟩ = some [] := by
+theorem markerName_gt [FLen] [FLit] (b : Bytes) (nl : Bool) : markerName ⟨62 :: b, nl⟩ = some [] := by
   rw [markerName_eq, marker_isPrefixOf_bytes, if_neg]
   simp [marker_eq, List.isPrefixOf]
 
